@@ -43,6 +43,18 @@ CONFIG = {
             "fuel": {}, "helpers": "src/a.c", "have": 1, "real": 8, "aux": [],
             "what": "Horner evaluators and coefficient swap of src/poly.c, wrappers of a/poly.h",
             "hyp": "none on sizes; the range of coefficients is not empty (the empty range, undefined in C, is an error on both sides)"},
+    "C13": {"sources": [("src/pid.c", ["a_pid_set_kpid", "a_pid_zero"]),
+                        ("src/pid_fuzzy.c", ["a_pid_fuzzy_opr", "a_pid_fuzzy_set_opr", "a_pid_fuzzy_mf", "a_pid_fuzzy_out_", "a_pid_fuzzy_zero"])],
+            "regions": {}, "fuel": {}, "helpers": "src/a.c", "have": 1, "real": 8,
+            "aux": ["a_pid_set_kpid", "a_pid_zero"],
+            # calls rendered as the hand model's functions (tied to src/mf.c and src/fuzzy.c by harness/C13/TieMf.v on the same run)
+            "externs": dict([("a_mf_%s" % m, "mf_%s O" % m) for m in
+                             "gauss gauss2 gbell sig dsig psig trap tri lins linz s z pi".split()] +
+                            [("a_fuzzy_%s" % o, "fuzzy_%s O" % o) for o in
+                             "equ cap cap_algebra cap_bounded cup cup_algebra cup_bounded".split()]),
+            "imports": "From LibaV Require Import C13.MfDefs.",
+            "what": "fuzzy PID controller src/pid_fuzzy.c",
+            "hyp": "orders below 2^32 (unsigned int), nrule * nrule below 2^32 for the scaled row index"},
     "C16": {"sources": [("src/math.c", ["a_real_push_fore"]), ("src/tf.c", TF_FUNCS)], "regions": {}, "fuel": {}, "helpers": "src/a.c",
             "have": 1, "real": 8, "aux": ["a_real_push_fore"], "what": "transfer function src/tf.c with a_real_push_fore of src/math.c",
             "hyp": "orders below 2^32 (unsigned int), delay lines as long as the coefficient vectors, instance law zero = ofZ 0"},
@@ -114,10 +126,14 @@ def arr_translate_and_tie(ctx, pid, timeout=600):
     repo = Path(vlib.REPO).resolve()
     try:
         text, errs, sigs = c2arr.translate([(str(repo / rel), names) for rel, names in conf["sources"]], str(repo / "include"), str(cfg),
-                                           regions=conf["regions"], fuel=conf["fuel"], helpers_source=str(repo / conf["helpers"]))
+                                           regions=conf["regions"], fuel=conf["fuel"], helpers_source=str(repo / conf["helpers"]),
+                                           externs=conf.get("externs"))
     except c2arr.Unsupported as ex:
         text, errs, sigs = "", {n: str(ex) for n in funcs}, {}
-    (gd / "GenLoop.v").write_text(c2arr.PRELUDE + text)
+    prelude = c2arr.PRELUDE
+    if conf.get("imports"):
+        prelude = prelude.replace("Import ListNotations.", conf["imports"] + "\nImport ListNotations.", 1)
+    (gd / "GenLoop.v").write_text(prelude + text)
     if errs:
         for k, v in errs.items():
             ctx.tie_broken("translator c2arr: %s is outside the supported subset (tie theorem tie_%s cannot be checked): %s" % (k, k, v))
